@@ -21,6 +21,8 @@ structure GraphIn where
   domErr : Bool := false
   flagged : List Nat := []
   flaggedErr : Bool := false
+  gps : List (Nat × Nat) := []                   -- generator's physical-source class of each clock (from what it requested)
+  req : List (Nat × List (Option Clk)) := []     -- clock(s) the generator requested at a register / pin / marker / memory port
 
 structure GraphOut where
   implFlagged : Bool := false
@@ -84,6 +86,29 @@ def evalGraph (caseId : String) (gi : GraphIn) : Array String × GraphOut × Lis
     if ps i != impl then
       msgs := msgs.push (diff "pinsource" s!"clock={i} model={ps i} impl={impl}")
     if impl != i then st := bumpBy st "clocksSharingPin" 1
+  -- the reported partition of the clocks into pin sources against the one the generator asked for (per clock, every design)
+  let prop (k : String) (m : String) : String := s!"PROPFAIL case={caseId} graph={gi.tag} kind={k} {m}"
+  let gpsOf (c : Nat) : Option Nat := (gi.gps.find? (·.1 == c)).map (·.2)
+  for (i, gi_) in gi.gps do
+    let implI := (gi.clocks.getD i (default, 0)).2
+    let mut bad : Option (Nat × Bool) := none
+    for (j, gj) in gi.gps do
+      if j < i && bad.isNone then
+        let implJ := (gi.clocks.getD j (default, 0)).2
+        if (gi_ == gj) != (implI == implJ) then bad := some (j, gi_ == gj)
+    match bad with
+    | some (j, want) =>
+      msgs := msgs.push (prop "pin-partition" s!"clock={i} and clock={j}: requested {if want then "the same" else "different"} physical clock source(s), getClockPinSource says {if want then "different" else "the same"} (pin sources {implI} / {(gi.clocks.getD j (default, 0)).2})")
+    | none => pure ()
+  st := bumpBy st "clocksCheckedAgainstRequest" gi.gps.length
+  -- specification side: clocks are one domain iff the generator requested the same physical source (fallback: the modelled pin source)
+  let allKnown := gi.clocks.size > 0 && (List.range gi.clocks.size).all fun c => (gpsOf c).isSome
+  let psSpec : Clk → Clk := if allKnown then
+      fun c => match gpsOf c with
+        | some cl => ((gi.gps.filter (·.2 == cl)).map (·.1)).foldl min c
+        | none => c
+    else ps
+  if allKnown then st := bumpBy st "graphsJudgedWithRequestedSources" 1
   -- graph
   let mut ports : Array (Nat × Nat) := #[]
   for i in [0:gi.nodes.size] do
@@ -95,6 +120,17 @@ def evalGraph (caseId : String) (gi : GraphIn) : Array String × GraphOut × Lis
   st := bumpBy st "ports" n
   if !gi.supported then
     st := bumpBy st "unsupportedGraphs" 1
+  -- the clock slots of the nodes against the clocks the generator requested there
+  for (k, want) in gi.req do
+    let have_ : List (Option Clk) := match (gi.nodes.getD k default).kind with
+      | .plain (some c) => [c]
+      | .plain none => []
+      | .memPort c => [c]
+      | .noCheck c => [c]
+      | .cdc i o => [some i, o]
+    if have_ != want then
+      msgs := msgs.push (prop "clock-binding" s!"node={k} type={gi.types.getD k "?"} requested={want} bound={have_}")
+  st := bumpBy st "nodesCheckedAgainstRequest" gi.req.length
   -- output relations
   for p in [0:n] do
     match gi.ocr.getD p none with
@@ -153,12 +189,12 @@ def evalGraph (caseId : String) (gi : GraphIn) : Array String × GraphOut × Lis
   let mut clockCrossing := false
   if usable then
     let ls := g.labelSets depths
-    crossing := g.crossingB ps ls
-    clockCrossing := g.crossingB ps ls true
-    -- by `verdict_iff_crossing` the model verdict must agree with the path-based specification
+    crossing := g.crossingB psSpec ls
+    clockCrossing := g.crossingB psSpec ls true
+    -- by `verdict_iff_crossing` the model verdict must agree with the path-based specification (same pin-source function on both sides)
     let mv := g.rejects ps modelTotal
-    if mv != crossing then
-      msgs := msgs.push (diff "spec-model" s!"modelRejects={mv} crossingB={crossing}")
+    if mv != g.crossingB ps ls then
+      msgs := msgs.push (diff "spec-model" s!"modelRejects={mv} crossingB={g.crossingB ps ls}")
     if acyc && mv != g.rejects ps (dom g) then
       msgs := msgs.push (diff "confluence" s!"modelRejects={mv} domRejects={g.rejects ps (dom g)}")
     let nmark := gi.nodes.foldl (fun a nd => match nd.kind with | .cdc _ _ => a + 1 | _ => a) 0
@@ -263,11 +299,14 @@ partial def loop (h : IO.FS.Stream) (d : D) : IO D := do
   | "flagged" :: l =>
     if l == ["e"] then loop h { d with cur := { d.cur with flaggedErr := true } }
     else loop h { d with cur := { d.cur with flagged := l.map (·.toNat!) } }
+  | ["gps", c, cl] => loop h { d with cur := { d.cur with gps := d.cur.gps ++ [(c.toNat!, cl.toNat!)] } }
+  | "req" :: k :: cs => loop h { d with cur := { d.cur with req := (k.toNat!, cs.map parseClk) :: d.cur.req } }
   | ["endgraph"] =>
     let (msgs, out, st) := evalGraph d.caseId d.cur
     msgs.forM IO.println
     let nd := msgs.foldl (fun a m => if m.startsWith "DIFF" then a + 1 else a) 0
-    let mut d := { d with graphs := d.graphs + 1, ops := d.ops + d.cur.ocr.size, diffs := d.diffs + nd, inGraph := false }
+    let np := msgs.foldl (fun a m => if m.startsWith "PROPFAIL" then a + 1 else a) 0
+    let mut d := { d with graphs := d.graphs + 1, ops := d.ops + d.cur.ocr.size, diffs := d.diffs + nd, propfails := d.propfails + np, inGraph := false }
     for (k, v) in st do d := d.stat k v
     if d.cur.tag == "pre" then d := { d with pre := some out } else d := { d with post := some out }
     loop h d
